@@ -58,6 +58,7 @@ package classifier
 //@   ensures 0 <= start && start <= end && end <= len(diffs)
 //@   modifies nothing
 //@   loop 1 invariant 0 <= start && start <= end && end <= len(diffs)
+//@   loop 1 decreases len(diffs) - end
 //@   props C02 C10 C03
 //@
 // ---------------------------------------------------------------- scoring.go
@@ -212,6 +213,8 @@ package classifier
 //@   loop 1 invariant forall c1 uint32, c2 uint32 :: (c1 in h) && (c2 in h) && c1 != c2 ==> ref(h[c1]) != ref(h[c2])
 //@   loop 1 invariant forall i int :: 0 <= i && i < len(tr) ==> okTR(tr[i], len(toks))
 //@   loop 2 invariant 0 <= i && i <= q && offset + q <= len(toks)
+//@   loop 1 decreases len(toks) - offset
+//@   loop 2 decreases q - i
 //@   props C10 C17
 //@
 //@ func (*searchSet).generateNodeList
@@ -222,6 +225,7 @@ package classifier
 //@   modifies s.nodes
 //@   loop 1 invariant 0 <= i && i <= len(s.Checksums) && okNodes(s) && (s.nodes == nil || fresh(s.nodes))
 //@   loop 1 invariant s.Tokens == old(s.Tokens) && s.Checksums == old(s.Checksums) && s.ChecksumRanges == old(s.ChecksumRanges)
+//@   loop 1 decreases len(s.Checksums) - i
 //@   props C10
 //@
 //@ func newSearchSet
@@ -287,6 +291,10 @@ package classifier
 //@   loop 5 invariant 1 <= i && len(final) >= 1 && fresh(final)
 //@   loop 5 invariant forall k int :: 0 <= k && k < len(final) ==> 0 <= final[k].SrcStart && final[k].SrcStart < len(hits)
 //@   loop 5 invariant forall k int :: 0 <= k && k < len(out) ==> 0 <= out[k] && out[k] < len(hits)
+//@   loop 2 decreases m.TargetEnd - idx
+//@   loop 3 decreases subsetLength - i
+//@   loop 4 decreases len(hits) - i
+//@   loop 5 decreases len(out) - i
 //@   props C10 C09 C04
 //
 //@ func (*matchRange).in
@@ -305,6 +313,7 @@ package classifier
 //@   loop 4 invariant len(filter) == targetSize && fresh(filter) && okMRs(matched, targetSize) && okMRs(claimed, targetSize) && (claimed == nil || fresh(claimed)) && okMR(m, targetSize)
 //@   loop 4 invariant forall k int :: 0 <= k && k < len(claimed) ==> pointee(matched, claimed[k])
 //@   loop 4 invariant pointee(matched, m)
+//@   loop 2 decreases m.SrcEnd - i
 //@   props C10 C09 C04
 //
 //@ func (*Classifier).getMatchedRanges
@@ -436,6 +445,7 @@ package classifier
 //@
 //@ func cleanupToken
 //@   modifies nothing
+//@   loop 2 decreases len(res)
 //@   props C10 C09 C04
 //@
 //@ func flushBuf
@@ -502,6 +512,7 @@ package classifier
 //@   loop 2 invariant (obuf == nil || fresh(obuf)) && (linebuf == nil || fresh(linebuf)) && fresh(rbuf) && len(rbuf) == 1024 && off(rbuf) == 0 && ref(obuf) != ref(rbuf)
 //@   loop 3 invariant (obuf == nil || fresh(obuf)) && fresh(rbuf) && len(rbuf) == 1024 && off(rbuf) == 0 && ref(obuf) != ref(rbuf)
 //@   loop 3 invariant forall j int :: 0 <= j && j < ite(err == nil, 1024, tgt) ==> rbuf[j] == streamByte(src, spos - idx + j)
+//@   loop 2 decreases 2 * (tgt - idx) + ite(len(obuf) > 0, 1, 0)
 //@   props C10 C03 C08 C09 C04 C11 C06
 //@
 //@ func NewClassifier
@@ -647,6 +658,7 @@ package classifier
 //@   callreq WriteString#2 requires arg_s != eol
 //@   loop 1 invariant outLine == prevLine && (rangeindex == -1 ==> prevLine == 1) && (rangeindex >= 0 ==> prevLine == doc.Tokens[rangeindex].Line) && sortedLines(doc) && okLines(doc)
 //@   loop 2 invariant outLine == prevLine && prevLine <= t.Line && sortedLines(doc) && okLines(doc)
+//@   loop 2 decreases t.Line - prevLine
 //@   props C10 C04 C11
 //@
 //@ // C12: LoadLicenses adds exactly the files ending in "txt" that lie at depth
